@@ -173,6 +173,33 @@ def gen_inputs(seed, n, files):
                 b, want = FG.gen_hex(rng)[0], "HEX"
             else:
                 b, want = FG.gen_srec(rng)[0], "SREC"
+            if kind in ("hex", "srec") and rng.random() < 0.35:
+                # grammar-aware damage: one record gets fewer / more payload bytes than its count field says (or an odd count),
+                # and its checksum is recomputed so that the line passes every check made before the fields are interpreted
+                lines = b.split(b"\n")
+                idx = [i for i, l in enumerate(lines) if len(l.strip()) >= 10]
+                pref = [i for i in idx if (kind == "hex" and lines[i].strip()[7:9] in (b"02", b"03", b"04", b"05")) or
+                        (kind == "srec" and lines[i].strip()[1:2] in (b"0", b"5", b"7", b"8", b"9"))]
+                if idx:
+                    i = rng.choice(pref if pref and rng.random() < 0.7 else idx)
+                    l = lines[i].strip()
+                    try:
+                        raw = bytearray(bytes.fromhex(l[1:].decode() if kind == "hex" else l[2:].decode()))
+                        body = raw[:-1]
+                        nhead = 4 if kind == "hex" else 1
+                        c = rng.random()
+                        if c < 0.5 and len(body) > nhead:
+                            del body[len(body) - rng.randrange(1, min(3, len(body) - nhead) + 1):]
+                        elif c < 0.7:
+                            body += rng.randbytes(rng.randrange(1, 3))
+                        else:
+                            body[0] = rng.choice([0, 1, 3, body[0] + 1 & 0xFF, 0xFF])
+                        ck = (-sum(body)) & 0xFF if kind == "hex" else (0xFF - (sum(body) & 0xFF))
+                        lines[i] = (b":" if kind == "hex" else l[:2]) + bytes(body + bytes([ck])).hex().upper().encode()
+                        yield "restructured:" + kind, b"\n".join(lines), None
+                        continue
+                    except Exception:
+                        pass
             cc = rng.random()
             if cc < 0.3:
                 yield "valid:" + kind, b, want
